@@ -93,6 +93,8 @@ def describe(beh):
                 bits.append("%s->%s" % (ev["c"]["a"], ev["c"].get("ret")))
             elif ev["e"] == "call" and ev["c"]["a"] in ("discover", "filter", "select"):
                 bits.append("%s->%s" % (ev["c"]["a"], json.dumps(ev["c"].get("ret"))))
+    if "hostLen" in beh:
+        bits.append("handshake address of %d characters" % beh["hostLen"])
     return " ".join(bits)
 
 
@@ -190,6 +192,20 @@ def run(prop, tier):
                     if ev["e"] == "rx" and ev["f"].get("k") == "ClientInfo":
                         ev["f"]["locale"] = w
                 sel.append({"why": "locale", "hist": [r0], "fuzz": True})
+    if prop in ("C04", "C06"):
+        # every admissible length of the server address in the Handshake (1 .. 255 characters): the frame length prefix then runs through
+        # one and two bytes and every value of its first byte; the conversation is the modelled one whatever the length
+        def plain(b):
+            return len(b["hist"]) == 1 and not any(ev["e"] == "rx" and (ev["f"].get("unexpected") or ev["f"].get("k") in ("Malformed", "Fuzz")
+                                                                          or ev["f"].get("next") in ("next0", "next4")) for ev in flat(b))
+        ping = [b for b in behaviours if plain(b) and any(ev["e"] == "tx" and ev["p"].get("k") == "Pong" for ev in flat(b))]
+        moved = [b for b in behaviours if plain(b) and any(ev["e"] == "tx" and ev["p"].get("k") == "Transfer" for ev in flat(b))]
+        for base in ping[:1] + moved[:1]:
+            for n in range(1, 256):
+                c = json.loads(json.dumps(base))
+                c["hostLen"] = n
+                c["why"] = "hostLen"
+                sel.append(c)
     if prop == "C10":
         # wall-clock dependence: two histories whose first connection spends 3.2 real seconds in discovery (the issued cookie must carry the
         # time of issue, not the time the login started)
